@@ -123,4 +123,31 @@ theorem pymod_rat_lt (x y : ℚ) (hy : 0 < y) : pymod Ops.rat x y < y := by
   have : y * (x / y) < y * (⌊x / y⌋ + 1) := mul_lt_mul_of_pos_left this hy
   rw [mul_div_cancel₀ _ hy.ne'] at this; linarith
 
+/-! ### `pywrap`: the repaired `correct_position_entry` (`r = x % L; r if r != L else 0.0`) -/
+
+/-- whenever the modulo is not (`==`-)equal to the modulus, `pywrap` is the plain modulo; any scalar type -/
+theorem pywrap_eq_pymod_of_ne {α : Type} [Add α] [LT α] [DecidableLT α] [BEq α] (o : Ops α) (x L : α)
+    (h : (pymod o x L != L) = true) : pywrap o x L = pymod o x L := by
+  simp [pywrap, h]
+
+/-- … and `0` otherwise -/
+theorem pywrap_eq_zero_of_eq {α : Type} [Add α] [LT α] [DecidableLT α] [BEq α] (o : Ops α) (x L : α)
+    (h : (pymod o x L != L) = false) : pywrap o x L = o.ofInt 0 := by
+  simp [pywrap, h]
+
+/-- in the exact reading the extra branch is dead (`x % L < L`): the mathematical floor-mod -/
+theorem pywrap_rat_pos (x y : ℚ) (hy : 0 < y) : pywrap Ops.rat x y = x - y * ⌊x / y⌋ := by
+  have hne : (pymod Ops.rat x y != y) = true := by
+    simpa using (pymod_rat_lt x y hy).ne
+  rw [pywrap_eq_pymod_of_ne _ _ _ hne, pymod_rat_pos x y hy]
+
+theorem pywrap_rat_eq_pymod (x y : ℚ) (hy : 0 < y) : pywrap Ops.rat x y = pymod Ops.rat x y := by
+  rw [pywrap_rat_pos x y hy, pymod_rat_pos x y hy]
+
+theorem pywrap_rat_nonneg (x y : ℚ) (hy : 0 < y) : 0 ≤ pywrap Ops.rat x y := by
+  rw [pywrap_rat_eq_pymod x y hy]; exact pymod_rat_nonneg x y hy
+
+theorem pywrap_rat_lt (x y : ℚ) (hy : 0 < y) : pywrap Ops.rat x y < y := by
+  rw [pywrap_rat_eq_pymod x y hy]; exact pymod_rat_lt x y hy
+
 end JF
